@@ -9,7 +9,7 @@
    implementation by tools/checks/c08.py (harness/h_net.cpp). *)
 From Coq Require Import List Arith Bool ZArith Permutation Sorted.
 From ORatio Require Import smt.SatCoreBase smt.SatCoreSpec smt.SatCore
-  proofs.SatCoreInv_Proofs proofs.SatCoreRun_Proofs proofs.SatCoreThm_Proofs proofs.SatCoreUndo_Proofs.
+  proofs.SatCoreInv_Proofs proofs.SatCoreRun_Proofs proofs.SatCoreThm_Proofs proofs.SatCoreUndo_Proofs proofs.SatCoreWlThm_Proofs.
 Import ListNotations.
 
 (* the assignment vector is a function of the trail alone, after ANY history *)
@@ -55,13 +55,13 @@ Theorem C08_pop_after_assume_restores_partial :
 Proof. exact @c08_pop_assume. Qed.
 Print Assumptions C08_pop_after_assume_restores_partial.
 
-(* the propositional instance (what is extracted and compared with the C++) needs no hypothesis *)
+(* the propositional instance (what is extracted and compared with the C++) needs no hypothesis, not even `ub = false`
+   (discharged by C07_no_undefined_behaviour_propositional) *)
 Theorem C08_pop_after_assume_restores_propositional :
   forall FUEL ops, run_ok (@isort lit) nt_propagate nt_check nt_id nt_id FUEL ops p_init = true ->
-  ub (run (@isort lit) nt_propagate nt_check nt_id nt_id FUEL ops p_init) = false ->
   forall p s', pre (run (@isort lit) nt_propagate nt_check nt_id nt_id FUEL ops p_init) (OAssume p) = true ->
   assume (@isort lit) nt_propagate nt_check nt_id nt_id FUEL (run (@isort lit) nt_propagate nt_check nt_id nt_id FUEL ops p_init) p = (s', RTrue) ->
   log s' = log (run (@isort lit) nt_propagate nt_check nt_id nt_id FUEL ops p_init) ->
   restored unit (fun ts => ts) (run (@isort lit) nt_propagate nt_check nt_id nt_id FUEL ops p_init) (pop nt_id s').
-Proof. exact c08_pop_assume_prop. Qed.
+Proof. exact c08_pop_assume_prop_no_ub. Qed.
 Print Assumptions C08_pop_after_assume_restores_propositional.
